@@ -3,7 +3,7 @@ C23 RUN, CLEAR and NEW reset state; CHAIN keeps exactly the COMMON variables.
 
 Oracle (R-MEM: a dictionary model of the variable state): a generated program P1 builds a random
 state - DEFtype ranges, OPTION BASE, scalars of all four types (explicit and implicit sigils), arrays
-(numeric and string, DIMmed and default), heap and literal strings up to 255 bytes under a memory limit
+(numeric and string, DIMmed and default), heap and literal strings up to 255 bytes, strings FIELDed on an open random file (LSET/RSET, GET) under a memory limit
 set by CLEAR ,n, DEF FN definitions, an error trap, event traps, a moved random sequence - and performs,
 from inside nested FOR / WHILE / GOSUB / an active error handler (before RESUME) / an event handler
 (before RETURN), one of
@@ -50,7 +50,8 @@ META = {
         'long_strings_in_state', 'memory_limited_states', 'closing_next_raised_error', 'closing_wend_raised_error',
         'def_fn_probed', 'deftype_probed', 'option_base_probed', 'trap_probed', 'rnd_probed', 'directed_cases',
         'base_dim_erase_histories_replayed', 'history_with_subscript_error', 'history_with_duplicate_definition',
-        'reset_inside_error_handler', 'reset_inside_event_handler', 'closing_resume_raised_error']},
+        'reset_inside_error_handler', 'reset_inside_event_handler', 'closing_resume_raised_error',
+        'failed_chain_then_string_churn', 'states_with_fielded_strings', 'fielded_strings_in_common']},
     'timeout': {'quick': 600, 'thorough': 7200},
 }
 
@@ -165,6 +166,7 @@ def gen_script(rng):
 
 def gen_case(rng):
     c = Case()
+    c.fielded = 0
     c.action = rng.choice(ACTIONS)
     chain = c.action.startswith('chain')
     # ---- DEFtype
@@ -232,6 +234,32 @@ def gen_case(rng):
                 cells[(i,)] = _value(rng, '$', long_ok=True)
         arrays['L9$'] = ([n], cells, True)
         awritten['L9$'] = 'L9$'
+    # ---- strings that live in the FIELD buffer of an open random file (scalars and an array element)
+    field_lines = []
+    if rng.random() < 0.3:
+        parts, sets = [], []
+        for nm in rng.sample(['F7$', 'G8$', 'H9$'], rng.choice([1, 2])):
+            if nm in scalars:
+                continue
+            w = rng.choice([1, 5, 12, 30])
+            text = ''.join(rng.choice('abcXYZ019 .') for _ in range(rng.randint(1, w)))
+            right = rng.random() < 0.3
+            scalars[nm] = (text.rjust(w) if right else text.ljust(w)).encode('ascii')
+            parts.append('%d AS %s' % (w, nm))
+            sets.append('%s %s="%s"' % ('RSET' if right else 'LSET', nm, text))
+        if rng.random() < 0.6 and 'K9$' not in arrays:
+            w = rng.choice([3, 8, 20])
+            text = ''.join(rng.choice('abcXYZ019 .') for _ in range(rng.randint(1, w)))
+            idx = (rng.randint(lo, 3),)
+            arrays['K9$'] = ([3], {idx: (text.ljust(w).encode('ascii'), None)}, True)
+            awritten['K9$'] = 'K9$'
+            parts.append('%d AS K9$(%d)' % (w, idx[0]))
+            sets.append('LSET K9$(%d)="%s"' % (idx[0], text))
+        if parts:
+            field_lines = ['OPEN "R",#1,"RF.DAT",128', 'FIELD #1,' + ','.join(parts)] + sets
+            if rng.random() < 0.4:
+                field_lines += ['PUT #1,1', 'GET #1,1']
+            c.fielded = len(parts)
     # ---- functions, traps, random sequence
     fns = []
     for name in rng.sample(['FNA', 'FNB', 'FNH'], rng.choice([0, 1, 1, 2])):
@@ -264,7 +292,7 @@ def gen_case(rng):
                 k = rng.random()
                 if k < 0.45 and scalars:
                     f = rng.choice(sorted(scalars))
-                    nm = written[f][0] if rng.random() < 0.6 else f
+                    nm = written[f][0] if (f in written and rng.random() < 0.6) else f
                     items.append(nm)
                     commons_s.add(f)
                 elif k < 0.8 and arrays:
@@ -295,9 +323,11 @@ def gen_case(rng):
         dims, cells, dimmed = arrays[f]
         if dimmed:
             setup.append('DIM %s(%s)' % (awritten[f], ','.join('%d' % d for d in dims)))
-    assigns = ['%s=%s' % written[f] for f in scalars]
+    assigns = ['%s=%s' % written[f] for f in scalars if f in written]
     for f in arrays:
         for idx, (v, text) in arrays[f][1].items():
+            if text is None:
+                continue            # (set through FIELD / LSET below)
             assigns.append('%s(%s)=%s' % (awritten[f], ','.join('%d' % i for i in idx), text))
     rng.shuffle(assigns)
     churn = False
@@ -307,6 +337,7 @@ def gen_case(rng):
             # temporary garbage between the assignments, so that string space is collected on the way
             setup.append('Q9$=STRING$(%d,%d)+"x":Q9$=""' % (rng.randint(20, 120), rng.randint(65, 90)))
             churn = True
+    setup.extend(field_lines)
     for name in fns:
         setup.append('DEF %s(X)=X*2+%d' % (name, rng.randint(1, 9)))
     if c.randomize is not None:
@@ -347,7 +378,7 @@ def gen_case(rng):
             seg_closers[-1].append(('wend', 'WEND'))
             scalars[v] = 1
         else:
-            t = 1000 + 100 * (len(segments) - 1)
+            t = 1000 + 300 * (len(segments) - 1)
             if kind == 'gosub':
                 segments[-1].append('GOSUB %d' % t)
                 seg_end.append('RETURN')
@@ -455,7 +486,7 @@ def gen_case(rng):
         for t in segments[k]:
             numbered.append([n, t])
             n += 5
-        assert n < targets[k] + 100
+        assert n < targets[k] + 300
     n = 4000
     for t in post_common:
         numbered.append([n, t])
@@ -607,6 +638,10 @@ def run_case(c, res, harness, rnd_ref):
                 res.count('reset_inside_error_handler')
             if 'event' in c.ctx:
                 res.count('reset_inside_event_handler')
+            if getattr(c, 'fielded', 0):
+                res.count('states_with_fielded_strings')
+                if c.chain and any(f in c.keep_s for f in ('F7$', 'G8$', 'H9$')) or 'K9$' in c.keep_a:
+                    res.count('fielded_strings_in_common')
             if c.mem:
                 res.count('memory_limited_states')
             if c.long_strings:
@@ -885,6 +920,79 @@ def directed_cases():
     return out
 
 
+# ---------------------------------------------------------------------------------------------------
+# a CHAIN that fails (file missing / wrong format), trapped or not, after which the program goes on and
+# churns through more string space than there is: everything must still work
+
+def gen_failed_chain(rng):
+    c = {}
+    stmt = rng.choice(['CHAIN "NOFILE"', 'CHAIN "NOFILE",500', 'CHAIN "NOFILE",,ALL', 'CHAIN "NOFILE",500,ALL', 'CHAIN MERGE "NOFILE",500',
+                       'CHAIN MERGE "NOFILE",500,ALL', 'CHAIN MERGE "TOK",500', 'CHAIN MERGE "TOK",500,ALL'])
+    code = 54 if '"TOK"' in stmt else 53
+    trapped = rng.random() < 0.5
+    n, k = rng.choice([(250, 200), (400, 150), (150, 250), (600, 100)])
+    lines = []
+    if trapped:
+        lines.append('10 ON ERROR GOTO 900')
+    lines.append('20 A$="keep"+"me":DIM L$(%d)' % rng.randint(1, 8))
+    lines.append('30 FOR I%%=0 TO %d:L$(I%%)=STRING$(%d,66)+"y":NEXT' % (rng.randint(0, 1), rng.randint(20, 250)))
+    if rng.random() < 0.6:
+        lines.append('40 COMMON A$,L$()')
+    lines.append('100 PRINT "before"')
+    lines.append('110 %s' % stmt)
+    lines.append('120 PRINT "after"')
+    lines.append('500 FOR I%%=1 TO %d:B$=STRING$(%d,65+I%% MOD 20)+"x":NEXT' % (n, k))
+    lines.append('510 PRINT "DONE";LEN(B$):END')
+    lines.append('900 PRINT "T";ERR;ERL:RESUME NEXT')
+    c['done'] = b'DONE %d \r\n' % (k + 1)
+    c['msg'] = {53: b'File not found', 54: b'Bad file mode'}[code]
+    c['lines'], c['stmt'], c['trapped'], c['code'] = lines, stmt, trapped, code
+    return c
+
+
+def run_failed_chain(c, res, harness):
+    """
+    Accepted: the error of the failed CHAIN is trapped by the program's handler (T code line, then "after") or it stops
+    the program with its message (the statement does not pin whether the trap is still armed); then - continued by
+    GOTO in the second case - the loop must complete.
+    """
+    case = {'lines': c['lines']}
+    res.case('\n'.join(c['lines']))
+    res.count('failed_chain_then_string_churn')
+    fatal = b'before\r\n' + c['msg'] + b' in 110' + E
+    trapped = b'before\r\nT %d  110 \r\nafter\r\n' % c['code'] + c['done']
+    wrong_format = '"TOK"' in c['stmt']       # (which error a tokenised file gives to CHAIN MERGE is not pinned here)
+    try:
+        with harness.Box(budget=8000) as box:
+            # a tokenised program file: CHAIN MERGE needs plain text, so merging it fails
+            box.run([b'10 PRINT 1'])
+            box.ex(b'SAVE "TOK"')
+            out = box.run([l.encode('ascii') for l in c['lines']], budget=8000)
+            if wrong_format:
+                code, line = harness.err_of(out)
+                if code > 0 and line == 110 and out.startswith(b'before\r\n') and out.count(b'\r\n') == 2:
+                    fatal = out
+                elif out.startswith(b'before\r\nT ') and out.endswith(b'after\r\n' + c['done']):
+                    trapped = out
+            if out == fatal:
+                res.count('failed_chain_stopped_the_program')
+                out += box.ex(b'GOTO 500', 8000)
+                expected = fatal + c['done']
+            else:
+                res.count('failed_chain_was_trapped')
+                expected = trapped
+    except harness.Internal as e:
+        res.violation(e.key, str(e), case)
+        return
+    if out != expected:
+        if out.startswith(expected[:-len(c['done'])]):
+            what = 'string-churn-after-failed-chain-does-not-complete'
+        else:
+            what = 'failed-chain-not-reported-as-expected'
+        res.violation('chain-fails:%s' % what, '%s (%s) then a loop through more string space than there is: printed %r, expected %r'
+                      % (c['stmt'], 'with a trap set' if c['trapped'] else 'without trap', out[-160:], expected[-80:]), case)
+
+
 def _fresh_rnd(harness):
     with harness.Box() as box:
         return box.ex(b'PRINT RND;RND')
@@ -900,6 +1008,9 @@ def run_shard(spec, res):
         for c in script_cases():
             res.count('directed_cases')
             run_case(c, res, harness, rnd_ref)
+        for i in range(40):
+            run_failed_chain(gen_failed_chain(random.Random('C23:failed-chain:%d' % i)), res, harness)
+            res.count('directed_cases')
         for i in range(60):
             c = gen_case(random.Random('C23:directed:%d' % i))
             res.count('directed_cases')
@@ -908,6 +1019,9 @@ def run_shard(spec, res):
         return
     rng = random.Random('%s:C23:%s:%s' % (spec['seed'], spec['kind'], spec.get('part', 0)))
     for i in range(spec['n']):
+        if rng.random() < 0.06:
+            run_failed_chain(gen_failed_chain(rng), res, harness)
+            continue
         c = gen_case(rng)
         run_case(c, res, harness, rnd_ref)
         if i < 1 and spec.get('part', 0) < 3:
